@@ -1,12 +1,14 @@
 #!/bin/bash
-# usage: tools/try_patch.sh <patch.diff> <Cxx> [Cyy ...]   — run checks against a scratch worktree of /repo with the patch applied
+# usage: tools/try_patch.sh <patch.diff> <Cxx> [Cyy ...]
+# Runs the named checks against a scratch worktree of /repo (HEAD + uncommitted nothing) with the patch applied.
+# /repo itself is never touched. The worktree and its facts are removed afterwards.
 set -u
 P=$(realpath "$1"); shift
 WT=/var/tmp/gmxsa-wt-$$
 git -C /repo worktree add --detach -q "$WT" HEAD || exit 3
-trap 'git -C /repo worktree remove --force "$WT" >/dev/null 2>&1; rm -rf /verif/.cache/facts-*' EXIT
+FD=/verif/.cache/facts-$(python3 -c "import hashlib,os,sys;print(hashlib.sha1(os.path.realpath(sys.argv[1]).encode()).hexdigest()[:10])" "$WT")
+trap 'git -C /repo worktree remove --force "$WT" >/dev/null 2>&1; rm -rf "$FD"' EXIT
 git -C "$WT" apply "$P" || { echo "PATCH DOES NOT APPLY"; exit 3; }
-rc=0
 for c in "$@"; do
-  GMXSA_REPO="$WT" /verif/check "$c" 2>&1 | grep -E "^\[C|FAIL|VIOLATION|KNOWN|gmxsa:|error" | head -${TRY_LINES:-12}
+  GMXSA_REPO="$WT" /verif/check "$c" 2>&1 | grep -E "^\[C|FAIL|VIOLATION|KNOWN|gmxsa:|^error|panicked" | head -${TRY_LINES:-14}
 done
